@@ -88,6 +88,26 @@ class SymbolTables:
         self._symbol_tables = {}
         self._current_scope = None
 
+    def snapshot(self):
+        """
+        :returns: the current set of top-level symbol tables and the current \
+            scope, in a form that can be passed to :py:meth:`restore`.
+        :rtype: Tuple[Dict[str, :py:class:`fparser.two.symbol_table.SymbolTable`], \
+            Optional[:py:class:`fparser.two.symbol_table.SymbolTable`]]
+        """
+        return (dict(self._symbol_tables), self._current_scope)
+
+    def restore(self, snapshot):
+        """
+        Re-instates the set of top-level symbol tables and the current scope
+        recorded by an earlier call to :py:meth:`snapshot`. Used to discard
+        whatever a parse that failed had added, removed or left open.
+
+        :param snapshot: the object returned by :py:meth:`snapshot`.
+        """
+        self._symbol_tables = dict(snapshot[0])
+        self._current_scope = snapshot[1]
+
     def add(self, name, node=None):
         """
         Add a new symbol table with the supplied name. The name will be
